@@ -1,8 +1,15 @@
 #!/bin/bash
-# seedrun.sh <pid> <seeded name> [tier]  apply a seeded change to /repo, run the check, undo
+# seedrun.sh <pid> <seeded name> [tier]  run a check against a seeded change.
+# /repo itself is never written: the change is applied to a scratch worktree of /repo's HEAD outside
+# /repo and /verif, the check is pointed at it with VERIF_REPO, and the worktree is removed on exit
+# (also when this script is interrupted).
 pid=$1; name=$2; tier=${3:-quick}
-cd /repo && git status --short | grep -q . && { echo "/repo not clean"; exit 2; }
-git -C /repo apply /verif/seeded/$name/patch.diff || exit 3
-cd /verif && ./check $pid --tier $tier > /tmp/seedrun_$name.log 2>&1; rc=$?
-git -C /repo checkout -- .
+git -C /repo status --short | grep -q . && { echo "/repo not clean"; exit 2; }
+scratch=$(mktemp -d /tmp/verif_seed_repo.XXXXXX) && rmdir "$scratch" || exit 2
+cleanup() { git -C /repo worktree remove --force "$scratch" >/dev/null 2>&1; rm -rf "$scratch"; git -C /repo worktree prune; }
+trap cleanup EXIT
+trap 'exit 130' INT TERM HUP
+git -C /repo worktree add --detach "$scratch" HEAD >/dev/null 2>&1 || exit 3
+git -C "$scratch" apply /verif/seeded/$name/patch.diff || exit 3
+cd /verif && VERIF_REPO="$scratch" ./check $pid --tier $tier > /tmp/seedrun_$name.log 2>&1; rc=$?
 echo "seedrun $name: check $pid rc=$rc"; grep -E "^(VIOLATION|KNOWN|MACHINERY|MODEL)" /tmp/seedrun_$name.log | cut -c1-260 | head -5; tail -1 /tmp/seedrun_$name.log
